@@ -13,7 +13,8 @@ def run(ctx):
 
 def _run(ctx):
     binary = lq.build(ctx)
-    cfgs = ["LedgerQuery_C39.cfg", "LedgerQuery_C39t.cfg"] if ctx.thorough else ["LedgerQuery_C39.cfg"]
+    # quick: heights 1..2; thorough: heights 1..3 (C39h) plus all double-field mutations (C39t)
+    cfgs = ["LedgerQuery_C39h.cfg", "LedgerQuery_C39t.cfg"] if ctx.thorough else ["LedgerQuery_C39.cfg"]
     allpaths, nsteps, names, classes = [], 0, {}, set()
     files = None
     if binary:
